@@ -190,7 +190,8 @@ func genC12(t *rapid.T) c12Case {
 		// subtree, i.e. just a hash, so the message stays small; sizes around powers of two and around the cap
 		n := rapid.Uint64Range(1, refTxnCap()+2).Draw(t, "bign")
 		if rapid.IntRange(0, 2).Draw(t, "edge") > 0 {
-			base := []uint64{1 << uint(rapid.IntRange(1, 21).Draw(t, "pow")), refTxnCap()}[rapid.IntRange(0, 1).Draw(t, "which")]
+			base := []uint64{1 << uint(rapid.IntRange(1, 21).Draw(t, "pow")), refTxnCap(),
+				uint64(rapid.IntRange(1, 32).Draw(t, "k16")) << 16, uint64(rapid.IntRange(1, 8000).Draw(t, "k8")) << 8}[rapid.IntRange(0, 3).Draw(t, "which")]
 			n = base + uint64(rapid.IntRange(-3, 3).Draw(t, "delta"))
 			if n < 1 || n > refTxnCap()+2 {
 				n = refTxnCap()
@@ -225,6 +226,65 @@ func genC12(t *rapid.T) c12Case {
 			// the same path presented one level short (the last two entries merged into one hash)
 			c.Hashes = c.Hashes[:len(c.Hashes)-1]
 			c.Tag = "synthetic-path-short"
+		}
+		return c
+	case 2:
+		// many violations at once: 255 / 256 / 257 / 512 pairs of equal sibling leaves, everything matched
+		pairs := rapid.SampledFrom([]int{255, 256, 257, 512, 128}).Draw(t, "pairs")
+		leaves := make([]h32, 2*pairs)
+		matched := make([]bool, 2*pairs)
+		for i := 0; i < pairs; i++ {
+			leaves[2*i] = hashPair(h32{byte(i), byte(i >> 8), 0x33}, h32{})
+			leaves[2*i+1] = leaves[2*i]
+			matched[2*i], matched[2*i+1] = true, true
+		}
+		hs, bits := refPMTBuild(leaves, matched)
+		c := c12Case{Count: uint32(2 * pairs), Flags: packFlagBits(bits), Tag: "many-equal-pairs"}
+		for _, h := range hs {
+			c.Hashes = append(c.Hashes, append(HexBytes{}, h[:]...))
+		}
+		return c
+	case 3:
+		// sibling leaves that differ, but only in ways a sloppy comparison folds away: the same value XOR-ed into two
+		// words, one word raised and another lowered by the same amount, two words exchanged, top bits of two words flipped
+		n := rapid.IntRange(2, 9).Draw(t, "n")
+		leaves := make([]h32, n)
+		for i := range leaves {
+			leaves[i] = hashPair(h32{byte(i), 0x44, byte(n)}, h32{})
+		}
+		j := 2 * rapid.IntRange(0, n/2-1).Draw(t, "pair")
+		v := leaves[j]
+		a, b := 4*rapid.IntRange(0, 7).Draw(t, "wa"), 4*rapid.IntRange(0, 7).Draw(t, "wb")
+		if a == b {
+			b = (a + 4) % 32
+		}
+		switch rapid.IntRange(0, 3).Draw(t, "rel") {
+		case 0:
+			for k := 0; k < 4; k++ {
+				v[a+k] ^= 0x5a
+				v[b+k] ^= 0x5a
+			}
+		case 1:
+			v[a+3] += 9
+			v[b+3] -= 9
+		case 2:
+			for k := 0; k < 4; k++ {
+				v[a+k], v[b+k] = v[b+k], v[a+k]
+			}
+		default:
+			v[a] ^= 0x80
+			v[b] ^= 0x80
+			v[a+3] ^= 0x80
+			v[b+3] ^= 0x80
+		}
+		leaves[j+1] = v
+		matched := make([]bool, n)
+		matched[rapid.IntRange(0, n-1).Draw(t, "m")] = true
+		matched[j] = rapid.Bool().Draw(t, "mj")
+		hs, bits := refPMTBuild(leaves, matched)
+		c := c12Case{Count: uint32(n), Flags: packFlagBits(bits), Tag: "near-equal-siblings"}
+		for _, h := range hs {
+			c.Hashes = append(c.Hashes, append(HexBytes{}, h[:]...))
 		}
 		return c
 	case 1:
